@@ -1074,7 +1074,45 @@ def d7_predicates(prog, rep):
         ok = len(calls) == 1 and any(tag(cn) == 'call' and 'PartialEq' in cn[1] for cn, v in f.guards().get(calls[0].bb, []))
         (rep.ok if ok else rep.viol)('predicate', key, 'shape equality then element comparison' if ok else 'Matrix::close_to does not compare shapes before delegating', site_of(f.body))
     # exact PartialEq for Vector: |a-b| > EPSILON on the signed difference
-    rep.floor('predicate', 6, 'is_symmetric x2, triangular x2, close_to x2')
+    # is_design: every row starts with 1.  Whatever the idiom, a failing row anywhere must make the answer false: a flag that is simply
+    # overwritten in every iteration reports the last row only
+    k = U + 'is_design'
+    f = prog.func(k)
+    key = 'predicate:%s' % k
+    if f is not None:
+        rep.touch(k)
+        rets = f.return_values()
+        flag = rets[0] if len(rets) == 1 and tag(rets[0]) == 'local' else None
+        loops = f.cfg.loops()
+        inloop = lambda bb: any(bb in bl for bl in loops.values())
+        if flag is not None:
+            defs = [st for st in f.stores() if st.target == flag]
+            init = [st for st in defs if not inloop(st.bb)]
+            upd = [st for st in defs if inloop(st.bb)]
+            overwrite = [st for st in upd if not (tag(st.value) == 'const' and st.value[2] is False) and flag not in list(subterms(st.value))]
+            monotone = upd and all(tag(st.value) == 'const' and st.value[2] is False for st in upd) and \
+                all(tag(st.value) == 'const' and st.value[2] is True for st in init)
+            if overwrite:
+                rep.viol('predicate', key, 'is_design overwrites its answer in every row (%s := %s): only the last row decides, a matrix whose earlier rows do not '
+                         'start with 1 is accepted' % (show(flag), show(overwrite[0].value)[:50]), site_of(overwrite[0].span))
+            elif monotone:
+                # the test under which the answer becomes false reads the first entry of row i
+                conds = [cn for st in upd for cn, v in f.guards().get(st.bb, []) if tag(cn) == 'bin' and len(cn) > 4 and cn[4] in ('f64', 'f32')]
+                first_col = any(tag(z) == 'index' and tag(z[1]) == 'arg' for cn in conds for z in subterms(cn))
+                if first_col:
+                    rep.ok('predicate', key, 'answer starts true and is only ever lowered to false, under a test of a row entry')
+                else:
+                    rep.undecided('predicate', key, 'test that lowers the answer not read', site_of(f.body), proof=False)
+            else:
+                rep.undecided('predicate', key, 'flag update idiom not read', site_of(f.body), proof=False)
+        else:
+            # iterator forms: all(..) / !any(..) over the rows, or early returns
+            vals = [prog.inline(r) for r in rets]
+            if vals and all(any(tag(z) == 'call' and short(z[1]) in ('all', 'any') for z in subterms(v)) or tag(v) == 'const' for v in vals):
+                rep.ok('predicate', key, 'answer is an all/any over the rows (or early returns of constants)')
+            else:
+                rep.undecided('predicate', key, 'predicate idiom not read', site_of(f.body), proof=False)
+    rep.floor('predicate', 7, 'is_symmetric x2, triangular x2, close_to x2, is_design')
     rep.trusted.append('approx_eq 0.1.8: rel_diff(a, b) = |(|a| - |b|)| / max(|a|, |b|) is blind to the signs of its arguments')
 
 
